@@ -25,10 +25,14 @@ def Txt(t):
 def IsSp(t):
     return isinstance(as_ref(t, 'RawTokenModel'), (Newline, Whitespace))
 
+@macro
+def Run(l):
+    return as_ref(l, 'SpRun')
+
 @contract('_find_spacing')
 def _(token, succ):
     types(succ='IARR', succ__ret='RawTokenModel', tokens='list[RawTokenModel]')
-    modifies('list[RawTokenModel]@fresh')
+    modifies('list[RawTokenModel]@fresh', 'SpRun.n0@fresh', 'SpRun.n1@fresh', 'SpRun.gk@fresh')
     after_stmt('tokens: list[base.RawTokenModel] = []', 'letarr', 'g_k', lambda j: 0)
     after_stmt('tokens.append(token)', 'letarr', 'g_k', lambda j: ite(j == len(tokens) - 1, K, sel(g_k, j)))
     # loop 0: skip zero-width tokens
@@ -40,15 +44,214 @@ def _(token, succ):
                  forall(lambda j: implies(0 <= j and j < len(tokens), 0 <= sel(g_k, j) and sel(g_k, j) < K and tokens[j] == chain(succ, chain(succ, old(token), K_loop0), sel(g_k, j))
                         and strlen(Txt(tokens[j])) != 0), tokens[j]),
                  forall(lambda i, j: implies(0 <= i and i < j and j < len(tokens), sel(g_k, i) < sel(g_k, j)), (sel(g_k, i), sel(g_k, j))),
-                 forall(lambda k: implies(0 <= k and k < K and strlen(Txt(chain(succ, chain(succ, old(token), K_loop0), k))) != 0, exists(lambda j: 0 <= j and j < len(tokens) and sel(g_k, j) == k)), chain(succ, chain(succ, old(token), K_loop0), k)))
-    ensures(result != None and fresh(result))
+                 forall(lambda k: implies(0 <= k and k < K and strlen(Txt(chain(succ, chain(succ, old(token), K_loop0), k))) != 0, exists(lambda j: 0 <= j and j < len(tokens) and sel(g_k, j) == k and tokens[j] == chain(succ, chain(succ, old(token), K_loop0), k))), chain(succ, chain(succ, old(token), K_loop0), k)))
+    # the witnesses, recorded on the returned list: n0 zero-width tokens skipped, then a run of n1 spacing tokens; gk[j] = place in the run of the j-th collected token
+    ghost('as_ref(result, "SpRun"):n0', K_loop0)
+    ghost('as_ref(result, "SpRun"):n1', K_loop1)
+    ghost('as_ref(result, "SpRun"):gk', lambda j: sel(g_k, j))
+    ensures(result != None and fresh(result) and Run(result).n0 >= 0 and Run(result).n1 >= 0)
     # the skipped prefix consists of zero-width tokens only and ends at a visible token (or at the end)
-    ensures(forall(lambda k: implies(0 <= k and k < K_loop0, chain(succ, old(token), k) != 0 and strlen(Txt(chain(succ, old(token), k))) == 0), chain(succ, old(token), k)))
-    # then comes a run of K_loop1 spacing tokens, ended by a non-spacing token (or the end): nothing but spacing lies between collected tokens
-    ensures(forall(lambda k: implies(0 <= k and k < K_loop1, IsSp(chain(succ, chain(succ, old(token), K_loop0), k))), chain(succ, chain(succ, old(token), K_loop0), k)))
-    ensures(not IsSp(chain(succ, chain(succ, old(token), K_loop0), K_loop1)))
+    ensures(forall(lambda k: implies(0 <= k and k < Run(result).n0, chain(succ, old(token), k) != 0 and strlen(Txt(chain(succ, old(token), k))) == 0), chain(succ, old(token), k)))
+    ensures(chain(succ, old(token), Run(result).n0) == 0 or strlen(Txt(chain(succ, old(token), Run(result).n0))) != 0)
+    # then comes a run of n1 spacing tokens, ended by a non-spacing token (or the end): nothing but spacing lies between collected tokens
+    ensures(forall(lambda k: implies(0 <= k and k < Run(result).n1, IsSp(chain(succ, chain(succ, old(token), Run(result).n0), k))), chain(succ, chain(succ, old(token), Run(result).n0), k)))
+    ensures(not IsSp(chain(succ, chain(succ, old(token), Run(result).n0), Run(result).n1)))
     # the result is exactly the visible tokens of that run, in order
-    ensures(forall(lambda j: implies(0 <= j and j < len(result), 0 <= sel(g_k, j) and sel(g_k, j) < K_loop1 and result[j] == chain(succ, chain(succ, old(token), K_loop0), sel(g_k, j))
+    ensures(forall(lambda j: implies(0 <= j and j < len(result), 0 <= sel(Run(result).gk, j) and sel(Run(result).gk, j) < Run(result).n1 and result[j] == chain(succ, chain(succ, old(token), Run(result).n0), sel(Run(result).gk, j))
             and strlen(Txt(result[j])) != 0 and IsSp(result[j])), result[j]))
-    ensures(forall(lambda i, j: implies(0 <= i and i < j and j < len(result), sel(g_k, i) < sel(g_k, j)), (sel(g_k, i), sel(g_k, j))))
-    ensures(forall(lambda k: implies(0 <= k and k < K_loop1 and strlen(Txt(chain(succ, chain(succ, old(token), K_loop0), k))) != 0, exists(lambda j: 0 <= j and j < len(result) and sel(g_k, j) == k)), chain(succ, chain(succ, old(token), K_loop0), k)))
+    ensures(forall(lambda i, j: implies(0 <= i and i < j and j < len(result), sel(Run(result).gk, i) < sel(Run(result).gk, j)), (sel(Run(result).gk, i), sel(Run(result).gk, j))))
+    ensures(forall(lambda k: implies(0 <= k and k < Run(result).n1 and strlen(Txt(chain(succ, chain(succ, old(token), Run(result).n0), k))) != 0, exists(lambda j: 0 <= j and j < len(result) and sel(Run(result).gk, j) == k and result[j] == chain(succ, chain(succ, old(token), Run(result).n0), k))), chain(succ, chain(succ, old(token), Run(result).n0), k)))
+
+# ================================================================ the accessor properties (store seen through its abstract interface: view, vlen, per-token store/pos)
+@macro
+def AbsInv(s):
+    return (s.g_vlen >= 0
+        and forall(lambda k: implies(0 <= k and k < s.g_vlen, allocated(as_ref(sel(s.g_view, k), 'RawTokenModel')) and as_ref(sel(s.g_view, k), 'RawTokenModel').g_store is s and as_ref(sel(s.g_view, k), 'RawTokenModel').g_pos == k), sel(s.g_view, k)))
+
+@macro
+def In(s, t):
+    return t != None and t.g_store is s and 0 <= t.g_pos and t.g_pos < s.g_vlen and sel(s.g_view, t.g_pos) is t
+
+@macro
+def Vis(t):      # a token with at least one character
+    return strlen(Txt(t)) != 0
+
+@contract('TokenStore.get_next')
+def _(self, token):
+    requires(AbsInv(self) and In(self, token))
+    modifies()
+    ensures(result == ite(token.g_pos + 1 < self.g_vlen, sel(self.g_view, token.g_pos + 1), 0))
+
+@contract('TokenStore.get_prev')
+def _(self, token):
+    requires(AbsInv(self) and In(self, token))
+    modifies()
+    ensures(result == ite(token.g_pos > 0, sel(self.g_view, token.g_pos - 1), 0))
+
+@macro
+def FreeTokens(tokens):
+    return (tokens != None and forall(lambda k: implies(0 <= k and k < len(tokens), tokens[k] != None and tokens[k].g_store is None), tokens[k])
+        and forall(lambda j, k: implies(0 <= j and j < k and k < len(tokens), tokens[j] != tokens[k])))
+
+@macro
+def Window(s, tokens, a, b):      # view' == old view[:a] ++ tokens ++ old view[b:]
+    return (s.g_vlen == old(s.g_vlen) - (b - a) + len(tokens) and AbsInv(s)
+        and forall(lambda k: sel(s.g_view, k) == ite(k < a, sel(old(s.g_view), k), ite(k < a + len(tokens), sel(elems(tokens), k - a), sel(old(s.g_view), k - len(tokens) + (b - a))))))
+
+@contract('TokenStore.splice')
+def _(self, tokens, ref, del_end):
+    requires(AbsInv(self) and (ref is None or In(self, ref)) and (del_end is None or In(self, del_end)) and FreeTokens(tokens))
+    requires(ite(ref is None, 0, ref.g_pos) <= ite(del_end is None, ite(ref is None, 0, ref.g_pos), del_end.g_pos + 1))
+    modifies('TokenStore.g_view@self', 'TokenStore.g_vlen@self', 'RawTokenModel.g_store', 'RawTokenModel.g_pos')
+    ensures(Window(self, tokens, old(ite(ref is None, 0, ref.g_pos)), old(ite(del_end is None, ite(ref is None, 0, ref.g_pos), del_end.g_pos + 1))))
+
+@contract('TokenStore.insert_after')
+def _(self, ref, tokens):
+    requires(AbsInv(self) and (ref is None or In(self, ref)) and FreeTokens(tokens))
+    modifies('TokenStore.g_view@self', 'TokenStore.g_vlen@self', 'RawTokenModel.g_store', 'RawTokenModel.g_pos')
+    ensures(Window(self, tokens, old(ite(ref is None, 0, ref.g_pos + 1)), old(ite(ref is None, 0, ref.g_pos + 1))))
+
+@contract('TokenStore.insert_before')
+def _(self, ref, tokens):
+    requires(AbsInv(self) and (ref is None or In(self, ref)) and FreeTokens(tokens))
+    modifies('TokenStore.g_view@self', 'TokenStore.g_vlen@self', 'RawTokenModel.g_store', 'RawTokenModel.g_pos')
+    ensures(Window(self, tokens, old(ite(ref is None, 0, ref.g_pos)), old(ite(ref is None, 0, ref.g_pos))))
+
+@contract('RawModel.token_store')
+def _(self):
+    modifies()
+    ensures(result is self.g_ts)
+
+@contract('RawModel.first_token')
+def _(self):
+    modifies()
+    ensures(result is self.g_first and result != None)
+
+@contract('RawModel.last_token')
+def _(self):
+    modifies()
+    ensures(result is self.g_last and result != None)
+
+# walking k steps from view[p] with get_next / get_prev lands on view[p + k] / view[p - k] (None once outside)
+@lemma
+def chain_next_all(A_f, A_v, n, p, N):
+    requires(0 <= p and p < n and 0 <= N and p + N <= n and forall(lambda i: implies(0 <= i and i < n, sel(A_f, sel(A_v, i)) == ite(i + 1 < n, sel(A_v, i + 1), 0))))
+    ensures(forall(lambda k: implies(0 <= k and k <= N, chain(A_f, sel(A_v, p), k) == ite(p + k < n, sel(A_v, p + k), 0)), chain(A_f, sel(A_v, p), k)))
+    hint(chain(A_f, sel(A_v, p), N + 1) == sel(A_f, chain(A_f, sel(A_v, p), N)))
+    induction('N', 0)
+
+@lemma
+def chain_prev_all(A_f, A_v, n, p, N):
+    requires(0 <= p and p < n and 0 <= N and N <= p + 1 and forall(lambda i: implies(0 <= i and i < n, sel(A_f, sel(A_v, i)) == ite(i > 0, sel(A_v, i - 1), 0))))
+    ensures(forall(lambda k: implies(0 <= k and k <= N, chain(A_f, sel(A_v, p), k) == ite(k <= p, sel(A_v, p - k), 0)), chain(A_f, sel(A_v, p), k)))
+    hint(chain(A_f, sel(A_v, p), N + 1) == sel(A_f, chain(A_f, sel(A_v, p), N)))
+    induction('N', 0)
+
+@macro
+def Attached(m):
+    return m != None and implies(m.g_ts != None, AbsInv(m.g_ts) and In(m.g_ts, m.g_first) and In(m.g_ts, m.g_last) and m.g_first.g_pos <= m.g_last.g_pos)
+
+# ---- spacing after: the visible spacing tokens between the model's last token and the next token that is not spacing
+# ghost g_a / g_b: the run of spacing tokens is view[g_a .. g_b)
+@contract('SpacingAccessorsMixin.raw_spacing_after')
+def _(self):
+    requires(Attached(self))
+    modifies('list[RawTokenModel]@fresh', 'SpRun.n0@fresh', 'SpRun.n1@fresh', 'SpRun.gk@fresh', 'SpacingAccessorsMixin.g_a@self', 'SpacingAccessorsMixin.g_b@self')
+    after_call('_find_spacing', 'g_run', 'g_tok0', 'A_succ')
+    ghost('g_a', ite(self.g_last.g_pos + 1 < self.g_ts.g_vlen, self.g_last.g_pos + 1 + Run(g_run).n0, self.g_ts.g_vlen))
+    ghost('g_b', ite(self.g_last.g_pos + 1 < self.g_ts.g_vlen, self.g_last.g_pos + 1 + Run(g_run).n0 + Run(g_run).n1, self.g_ts.g_vlen))
+    exit_assert(use_if(self.g_ts != None and self.g_last.g_pos + 1 < self.g_ts.g_vlen, 'chain_next_all', A_succ, self.g_ts.g_view, self.g_ts.g_vlen, self.g_last.g_pos + 1, self.g_ts.g_vlen - self.g_last.g_pos - 1))
+    # the walk cannot leave the store: it reaches None exactly after the last token
+    exit_assert(implies(self.g_ts != None and self.g_last.g_pos + 1 < self.g_ts.g_vlen, g_tok0 == sel(self.g_ts.g_view, self.g_last.g_pos + 1) and chain(A_succ, g_tok0, self.g_ts.g_vlen - self.g_last.g_pos - 1) == 0))
+    exit_assert(implies(self.g_ts != None and self.g_last.g_pos + 1 < self.g_ts.g_vlen, Run(g_run).n0 <= self.g_ts.g_vlen - self.g_last.g_pos - 1))
+    exit_assert(use_if(self.g_ts != None and self.g_last.g_pos + 1 < self.g_ts.g_vlen, 'chain_add', A_succ, g_tok0, Run(g_run).n0, self.g_ts.g_vlen - self.g_last.g_pos - 1 - Run(g_run).n0))
+    exit_assert(implies(self.g_ts != None and self.g_last.g_pos + 1 < self.g_ts.g_vlen, Run(g_run).n0 + Run(g_run).n1 <= self.g_ts.g_vlen - self.g_last.g_pos - 1))
+    exit_assert(implies(self.g_ts != None and self.g_last.g_pos + 1 < self.g_ts.g_vlen,
+                        forall(lambda k: implies(0 <= k and k <= Run(g_run).n1, chain(A_succ, chain(A_succ, g_tok0, Run(g_run).n0), k)
+                                                 == ite(self.g_last.g_pos + 1 + Run(g_run).n0 + k < self.g_ts.g_vlen, sel(self.g_ts.g_view, self.g_last.g_pos + 1 + Run(g_run).n0 + k), 0)),
+                               chain(A_succ, chain(A_succ, g_tok0, Run(g_run).n0), k))))
+    # the same two facts indexed by view position (so that statements about view[k] find the walk)
+    exit_assert(implies(self.g_ts != None and self.g_last.g_pos + 1 < self.g_ts.g_vlen,
+                        forall(lambda k: implies(self.g_last.g_pos < k and k < self.g_last.g_pos + 1 + Run(g_run).n0, chain(A_succ, g_tok0, k - self.g_last.g_pos - 1) == sel(self.g_ts.g_view, k)), sel(self.g_ts.g_view, k))))
+    exit_assert(implies(self.g_ts != None and self.g_last.g_pos + 1 < self.g_ts.g_vlen,
+                        forall(lambda k: implies(self.g_last.g_pos + 1 + Run(g_run).n0 <= k and k < self.g_last.g_pos + 1 + Run(g_run).n0 + Run(g_run).n1,
+                                                 chain(A_succ, chain(A_succ, g_tok0, Run(g_run).n0), k - (self.g_last.g_pos + 1 + Run(g_run).n0)) == sel(self.g_ts.g_view, k)), sel(self.g_ts.g_view, k))))
+    exit_assert(implies(self.g_ts != None and not (self.g_last.g_pos + 1 < self.g_ts.g_vlen), g_tok0 == 0 and chain(A_succ, g_tok0, 0) == 0 and Run(g_run).n0 == 0))
+    exit_assert(implies(self.g_ts != None and not (self.g_last.g_pos + 1 < self.g_ts.g_vlen), chain(A_succ, chain(A_succ, g_tok0, 0), 0) == 0 and Run(g_run).n1 == 0))
+    ensures(result != None and fresh(result) and implies(self.g_ts is None, len(result) == 0))
+    ensures(implies(self.g_ts != None, self.g_last.g_pos + 1 <= self.g_a and self.g_a <= self.g_b and self.g_b <= self.g_ts.g_vlen))
+    ensures(implies(self.g_ts != None, forall(lambda k: implies(self.g_last.g_pos < k and k < self.g_a, not Vis(sel(self.g_ts.g_view, k))), sel(self.g_ts.g_view, k))))
+    ensures(implies(self.g_ts != None, self.g_a == self.g_ts.g_vlen or Vis(sel(self.g_ts.g_view, self.g_a))))
+    ensures(implies(self.g_ts != None, forall(lambda k: implies(self.g_a <= k and k < self.g_b, IsSp(sel(self.g_ts.g_view, k))), sel(self.g_ts.g_view, k))))
+    ensures(implies(self.g_ts != None, self.g_b == self.g_ts.g_vlen or not IsSp(sel(self.g_ts.g_view, self.g_b))))
+    ensures(implies(self.g_ts != None, forall(lambda j: implies(0 <= j and j < len(result), In(self.g_ts, result[j]) and self.g_a <= result[j].g_pos and result[j].g_pos < self.g_b and Vis(result[j])), result[j])))
+    ensures(implies(self.g_ts != None, forall(lambda i, j: implies(0 <= i and i < j and j < len(result), result[i].g_pos < result[j].g_pos))))
+    ensures(implies(self.g_ts != None, forall(lambda k: implies(self.g_a <= k and k < self.g_b and Vis(sel(self.g_ts.g_view, k)), exists(lambda j: 0 <= j and j < len(result) and result[j] == sel(self.g_ts.g_view, k))), sel(self.g_ts.g_view, k))))
+
+# ---- spacing before: mirrored (walking with get_prev); the run of spacing tokens is view[g_c .. g_d), zero-width tokens only in view[g_d .. first)
+@contract('SpacingAccessorsMixin.raw_spacing_before')
+def _(self):
+    requires(Attached(self))
+    modifies('list[RawTokenModel]@fresh', 'SpRun.n0@fresh', 'SpRun.n1@fresh', 'SpRun.gk@fresh', 'SpacingAccessorsMixin.g_c@self', 'SpacingAccessorsMixin.g_d@self')
+    after_call('_find_spacing', 'g_run', 'g_tok0', 'A_succ')
+    ghost('g_d', ite(self.g_first.g_pos > 0, self.g_first.g_pos - Run(g_run).n0, 0))
+    ghost('g_c', ite(self.g_first.g_pos > 0, self.g_first.g_pos - Run(g_run).n0 - Run(g_run).n1, 0))
+    exit_assert(use_if(self.g_ts != None and self.g_first.g_pos > 0, 'chain_prev_all', A_succ, self.g_ts.g_view, self.g_ts.g_vlen, self.g_first.g_pos - 1, self.g_first.g_pos))
+    exit_assert(implies(self.g_ts != None and self.g_first.g_pos > 0, g_tok0 == sel(self.g_ts.g_view, self.g_first.g_pos - 1) and chain(A_succ, g_tok0, self.g_first.g_pos) == 0))
+    exit_assert(implies(self.g_ts != None and self.g_first.g_pos > 0, Run(g_run).n0 <= self.g_first.g_pos))
+    exit_assert(use_if(self.g_ts != None and self.g_first.g_pos > 0, 'chain_add', A_succ, g_tok0, Run(g_run).n0, self.g_first.g_pos - Run(g_run).n0))
+    exit_assert(implies(self.g_ts != None and self.g_first.g_pos > 0, Run(g_run).n0 + Run(g_run).n1 <= self.g_first.g_pos))
+    exit_assert(implies(self.g_ts != None and self.g_first.g_pos > 0,
+                        forall(lambda k: implies(0 <= k and k <= Run(g_run).n1, chain(A_succ, chain(A_succ, g_tok0, Run(g_run).n0), k)
+                                                 == ite(Run(g_run).n0 + k <= self.g_first.g_pos - 1, sel(self.g_ts.g_view, self.g_first.g_pos - 1 - Run(g_run).n0 - k), 0)),
+                               chain(A_succ, chain(A_succ, g_tok0, Run(g_run).n0), k))))
+    exit_assert(implies(self.g_ts != None and self.g_first.g_pos > 0,
+                        forall(lambda k: implies(self.g_first.g_pos - Run(g_run).n0 <= k and k < self.g_first.g_pos, chain(A_succ, g_tok0, self.g_first.g_pos - 1 - k) == sel(self.g_ts.g_view, k)), sel(self.g_ts.g_view, k))))
+    exit_assert(implies(self.g_ts != None and self.g_first.g_pos > 0,
+                        forall(lambda k: implies(self.g_first.g_pos - Run(g_run).n0 - Run(g_run).n1 <= k and k < self.g_first.g_pos - Run(g_run).n0,
+                                                 chain(A_succ, chain(A_succ, g_tok0, Run(g_run).n0), self.g_first.g_pos - Run(g_run).n0 - 1 - k) == sel(self.g_ts.g_view, k)), sel(self.g_ts.g_view, k))))
+    exit_assert(implies(self.g_ts != None, len(result) == len(as_list(g_run, 'RawTokenModel')) and forall(lambda i: implies(0 <= i and i < len(result), result[len(result) - 1 - i] == as_list(g_run, 'RawTokenModel')[i]), as_list(g_run, 'RawTokenModel')[i])))
+    exit_assert(implies(self.g_ts != None and not (self.g_first.g_pos > 0), g_tok0 == 0 and chain(A_succ, g_tok0, 0) == 0 and Run(g_run).n0 == 0))
+    exit_assert(implies(self.g_ts != None and not (self.g_first.g_pos > 0), chain(A_succ, chain(A_succ, g_tok0, 0), 0) == 0 and Run(g_run).n1 == 0))
+    ensures(result != None and fresh(result) and implies(self.g_ts is None, len(result) == 0))
+    ensures(implies(self.g_ts != None, 0 <= self.g_c and self.g_c <= self.g_d and self.g_d <= self.g_first.g_pos))
+    ensures(implies(self.g_ts != None, forall(lambda k: implies(self.g_d <= k and k < self.g_first.g_pos, not Vis(sel(self.g_ts.g_view, k))), sel(self.g_ts.g_view, k))))
+    ensures(implies(self.g_ts != None, self.g_d == 0 or Vis(sel(self.g_ts.g_view, self.g_d - 1))))
+    ensures(implies(self.g_ts != None, forall(lambda k: implies(self.g_c <= k and k < self.g_d, IsSp(sel(self.g_ts.g_view, k))), sel(self.g_ts.g_view, k))))
+    ensures(implies(self.g_ts != None, self.g_c == 0 or not IsSp(sel(self.g_ts.g_view, self.g_c - 1))))
+    ensures(implies(self.g_ts != None, forall(lambda j: implies(0 <= j and j < len(result), In(self.g_ts, result[j]) and self.g_c <= result[j].g_pos and result[j].g_pos < self.g_d and Vis(result[j])), result[j])))
+    ensures(implies(self.g_ts != None, forall(lambda i, j: implies(0 <= i and i < j and j < len(result), result[i].g_pos < result[j].g_pos))))
+    ensures(implies(self.g_ts != None, forall(lambda k: implies(self.g_c <= k and k < self.g_d and Vis(sel(self.g_ts.g_view, k)), exists(lambda j: 0 <= j and j < len(result) and result[j] == sel(self.g_ts.g_view, k))), sel(self.g_ts.g_view, k))))
+
+# ---- the setters: exactly the stretch from the first to the last visible spacing token is replaced by the offered tokens (or they are inserted next to the model);
+#      only spacing tokens are removed, only zero-width tokens stay between the model and the new spacing; without a store the call is refused with nothing changed
+@contract('SpacingAccessorsMixin.raw_spacing_after.setter')
+def _(self, tokens):
+    types(tokens='list[RawTokenModel]')
+    requires(Attached(self) and implies(self.g_ts != None, FreeTokens(tokens)))
+    modifies('TokenStore.g_view@self.g_ts', 'TokenStore.g_vlen@self.g_ts', 'RawTokenModel.g_store', 'RawTokenModel.g_pos', 'list[RawTokenModel]@fresh', 'SpRun.n0@fresh', 'SpRun.n1@fresh', 'SpRun.gk@fresh',
+             'SpacingAccessorsMixin.g_a@self', 'SpacingAccessorsMixin.g_b@self', 'SpacingAccessorsMixin.g_cut_a@self', 'SpacingAccessorsMixin.g_cut_b@self')
+    raises('ValueError', 'TokenStore.g_view', 'TokenStore.g_vlen', 'RawTokenModel.g_store', 'RawTokenModel.g_pos', when=self.g_ts is None)
+    after_assign('current_tokens', 'setint', 'g_cut_a', ite(len(current_tokens) > 0, current_tokens[0].g_pos, self.g_last.g_pos + 1))
+    after_assign('current_tokens', 'setint', 'g_cut_b', ite(len(current_tokens) > 0, current_tokens[len(current_tokens) - 1].g_pos + 1, self.g_last.g_pos + 1))
+    ensures(old(self.g_last.g_pos) < self.g_cut_a and self.g_cut_a <= self.g_cut_b and self.g_cut_b <= old(self.g_ts.g_vlen))
+    ensures(Window(self.g_ts, tokens, self.g_cut_a, self.g_cut_b))
+    ensures(forall(lambda k: implies(self.g_cut_a <= k and k < self.g_cut_b, IsSp(sel(old(self.g_ts.g_view), k))), sel(old(self.g_ts.g_view), k)))
+    ensures(forall(lambda k: implies(old(self.g_last.g_pos) < k and k < self.g_cut_a, not Vis(sel(old(self.g_ts.g_view), k))), sel(old(self.g_ts.g_view), k)))
+    # every visible token of the old spacing run is inside the replaced stretch
+    ensures(forall(lambda k: implies(self.g_a <= k and k < self.g_b and Vis(sel(old(self.g_ts.g_view), k)), self.g_cut_a <= k and k < self.g_cut_b), sel(old(self.g_ts.g_view), k)))
+
+@contract('SpacingAccessorsMixin.raw_spacing_before.setter')
+def _(self, tokens):
+    types(tokens='list[RawTokenModel]')
+    requires(Attached(self) and implies(self.g_ts != None, FreeTokens(tokens)))
+    modifies('TokenStore.g_view@self.g_ts', 'TokenStore.g_vlen@self.g_ts', 'RawTokenModel.g_store', 'RawTokenModel.g_pos', 'list[RawTokenModel]@fresh', 'SpRun.n0@fresh', 'SpRun.n1@fresh', 'SpRun.gk@fresh',
+             'SpacingAccessorsMixin.g_c@self', 'SpacingAccessorsMixin.g_d@self', 'SpacingAccessorsMixin.g_cut_a@self', 'SpacingAccessorsMixin.g_cut_b@self')
+    raises('ValueError', 'TokenStore.g_view', 'TokenStore.g_vlen', 'RawTokenModel.g_store', 'RawTokenModel.g_pos', when=self.g_ts is None)
+    after_assign('current_tokens', 'setint', 'g_cut_a', ite(len(current_tokens) > 0, current_tokens[0].g_pos, self.g_first.g_pos))
+    after_assign('current_tokens', 'setint', 'g_cut_b', ite(len(current_tokens) > 0, current_tokens[len(current_tokens) - 1].g_pos + 1, self.g_first.g_pos))
+    ensures(0 <= self.g_cut_a and self.g_cut_a <= self.g_cut_b and self.g_cut_b <= old(self.g_first.g_pos))
+    ensures(Window(self.g_ts, tokens, self.g_cut_a, self.g_cut_b))
+    ensures(forall(lambda k: implies(self.g_cut_a <= k and k < self.g_cut_b, IsSp(sel(old(self.g_ts.g_view), k))), sel(old(self.g_ts.g_view), k)))
+    ensures(forall(lambda k: implies(self.g_cut_b <= k and k < old(self.g_first.g_pos), not Vis(sel(old(self.g_ts.g_view), k))), sel(old(self.g_ts.g_view), k)))
+    ensures(forall(lambda k: implies(self.g_c <= k and k < self.g_d and Vis(sel(old(self.g_ts.g_view), k)), self.g_cut_a <= k and k < self.g_cut_b), sel(old(self.g_ts.g_view), k)))
